@@ -181,6 +181,33 @@ def c11_pda(t: T10, m: int, finals: int, rkind: int, d: D4, rs: int, rf: int, rs
     return chx.judge("C11", "c11_pda", raw, (pspec, spec), obs, _pda_oracle, realize_obs=False)
 
 
+# PDA with 2 states x DFA with 3 states: product states outnumber both operands
+PDA_SHAPES = [
+    ([(0, 1, 0, 1, 1), (1, 2, 0, 0, 1)], [0]),                                   # (ab)* by final state
+    ([(0, 1, 0, 0, 3), (0, 2, 1, 1, 0), (1, 2, 0, 1, 1)], [1]),                 # a X-push, popped on b, then b*
+    ([(0, 1, 0, 1, 1), (1, 1, 0, 0, 1), (0, 2, 0, 0, 1), (1, 2, 0, 1, 1)], [1]),  # odd number of a, any b
+]
+D6 = Tuple[int, int, int, int, int, int]
+
+
+def c11_pda_dfa3(shape: int, d: D6, rf: int) -> bool:
+    """
+    pre: pinned(shape=shape, rf=rf, d0=d[0], d1=d[1])
+    pre: enc.in_range(d, 4) & ((0 <= shape) & (shape < 3)) & ((1 <= rf) & (rf < 8))
+    post: _
+    """
+    raw = (shape, d, rf)
+    trans, fin = PDA_SHAPES[enc.pick(shape, 3)]
+    pspec = enc.pda_spec(trans, fin)
+    edges, starts, rfin = decode_dfa(d, 1, rf, 3, 2)
+    spec = ("fa", 3, edges, starts, rfin, RSYMS[0])
+    chx.enter("c11_pda_dfa3", raw)
+    pda = enc.build_pda(pspec)
+    r = enc.build_enfa(DeterministicFiniteAutomaton, 3, edges, starts, rfin, syms=RSYMS[0])
+    obs = {"intersection": chx.guarded(pda.intersection, r)}
+    return chx.judge("C11", "c11_pda_dfa3", raw, (pspec, spec), obs, _pda_oracle, realize_obs=False)
+
+
 def _types_oracle(args, obs):
     fails = []
     for op, res in obs:
@@ -267,4 +294,10 @@ CONDS = [
          {"quick": "cfg.intersection / pda.intersection with an int, a str, a CFG, None, a list raise "
                    "NotImplementedError", "thorough": "same"},
          FUNCS, "always"),
+    Cond("C11", c11_pda_dfa3, lambda tier: product_pins(shape=[0, 1, 2], rf=[4, 6], d0=[1, 2, 3], d1=[3]) if tier == "quick"
+         else product_pins(shape=[0, 1, 2], rf=[1, 4, 6], d0=[1, 2, 3], d1=[1, 2, 3]),
+         {"quick": "3 two-state PDAs ((ab)* / push-pop / parity) x partial DFAs with 3 states over {a,b} (symbolic table, "
+                   "first row pinned to 3 combinations), finals {2} / {1,2}: more product states than either operand has",
+          "thorough": "first row in 9 combinations, finals {0} / {2} / {1,2}"},
+         FUNCS, RULE, assumptions=ASSUME),
 ]
